@@ -194,6 +194,13 @@ def compute_bounded(sess: Session):
     sess.add_bounded('wn.ic.compute', f'every labelled digraph with <= {n} nodes x 5 corpora (unknown word, ambiguous '
                      f'word, repeated word) x distribute_weight x smoothing in (1, 0)', cases * 20,
                      'small-scope enumeration on the real function', not fails)
+    if sess.tier == 'thorough':
+        for nn in (5, 6, 7):
+            c2, f2 = G.sample('ic', nn, 3000, seed=sess.seed)
+            sess.add_bounded('wn.ic.compute (larger graphs)', f'{c2} random digraphs with {nn} nodes (seed {sess.seed}; '
+                             f'half of them acyclic) x 5 corpora x distribute_weight x smoothing', c2 * 20,
+                             'random sampling on the real function', not f2)
+            fails = list(fails) + list(f2)
     seen = set()
     for clause, witness in fails:
         if clause not in seen:
